@@ -659,6 +659,8 @@ def src_search(ctx):
 def run(ctx):
     if ctx.search:
         src_search(ctx)
+        if ctx.failures:              # the differing points already gave concrete failing inputs: report them
+            return
     channel_cases(ctx)
     cipher_cases(ctx)
     sign_cases(ctx)
